@@ -35,6 +35,10 @@ PARTIAL = [
     "only when the filter is the parent's first operand (C03_or_rewrite_parent_counterexample; the real code returns wrong "
     "rows / raises for Merge right inputs, binop right operands, Concat frames: support search, or_rewrite=True, "
     "filter_is_first_operand=False)",
+    "predicate substitution (p[op f := f]) is not modelled structurally: the crossing theorems take the substituted "
+    "predicate as predIn with the agreement hypothesis; whether the real rule performs the substitution completely is "
+    "checked by family category_conformance and the support search (ResetIndex leaves references to the reset frame in a "
+    "predicate that also reads the former index: AssertionError/IndexingError, sig op=reset_index former_index=mixed)",
     "_check_dependents_are_predicates (graph walk) is not modelled: its result is an input of the model, "
     "the end-to-end search covers shared consumers",
     "(true,true) both-sides push on a key column is proven for inner/left/leftsemi only (the code never does it for right/outer)",
@@ -683,10 +687,17 @@ def conformance_cases():
 
     cases = []
 
+    opname = {"AsType": "astype", "ResetIndex": "reset_index", "RenameAxis": "rename_axis", "_DeepCopy": "copy",
+              "Repartition": "repartition", "Shuffle": "shuffle", "SortValues": "sort_values", "SetIndex": "set_index",
+              "Filter": "filter"}
+
     def add(cls, cid, mk, preds, order_free=False, drop_index=False):
         for pn, pf in preds.items():
+            sig = {"kind": "cross", "op": opname.get(cls, cls.lower().lstrip("_"))}
+            if cls == "ResetIndex":
+                sig["former_index"] = "mixed" if pn.startswith("index_and") or pn.startswith("index_lt") else "only" if pn.startswith("index") else "none"
             cases.append({"cls": cls, "case": cid, "pred": pn, "mk": mk, "pf": pf, "order_free": order_free,
-                          "drop_index": drop_index})
+                          "drop_index": drop_index, "sig": sig})
 
     num_preds = {
         "a_gt0": lambda x: x["a"] > 0,
@@ -701,10 +712,13 @@ def conformance_cases():
     add("AsType", "b_float", lambda: dfl().astype({"b": "float64"}), num_preds)
     add("AsType", "a_str", lambda: dfl().astype({"b": "str"}), {"b_eq": lambda x: x["b"] == "2", "a_gt0": num_preds["a_gt0"]})
     add("AsType", "c_Int64", lambda: dfl().astype({"c": "Int64"}), {"c_ne7": num_preds["c_ne7"], "c_isna": num_preds["c_isna"]})
-    add("ResetIndex", "frame", lambda: dfl().reset_index(), {**num_preds, "index_gt": lambda x: x["index"] > 11}, drop_index=True)
+    add("ResetIndex", "frame", lambda: dfl().reset_index(),
+        {**num_preds, "index_gt": lambda x: x["index"] > 11, "index_and_a": lambda x: (x["index"] > 11) & (x["a"] > 0),
+         "index_lt_b": lambda x: x["index"] < x["b"] + 11}, drop_index=True)
     add("ResetIndex", "drop", lambda: dfl().reset_index(drop=True), num_preds, drop_index=True)
-    add("ResetIndex", "series", lambda: dfl()["a"].reset_index(), {"a_gt0": num_preds["a_gt0"], "index_gt": lambda x: x["index"] > 11},
-        drop_index=True)
+    add("ResetIndex", "series", lambda: dfl()["a"].reset_index(),
+        {"a_gt0": num_preds["a_gt0"], "index_gt": lambda x: x["index"] > 11,
+         "index_and_a": lambda x: (x["index"] > 11) & (x["a"] > 0)}, drop_index=True)
     add("RenameAxis", "index", lambda: dfl().rename_axis(index="ii"), num_preds)
     add("RenameSeries", "name", lambda: dfl()["a"].rename("z"), {"gt0": lambda x: x > 0, "ne": lambda x: x != 0.5})
     add("ToFrame", "series", lambda: dfl()["c"].to_frame(), {"c_ne7": num_preds["c_ne7"], "c_isna": num_preds["c_isna"]})
@@ -774,7 +788,7 @@ def fam_conformance(ctx):
         except Exception as ex:  # noqa: BLE001
             a, b = f"error {type(ex).__name__}: {ex}"[:300], "rows of the uncrossed plan"
         if a != b:
-            sig = {"kind": "cross", "op": c["cls"].lower().lstrip("_")}
+            sig = c["sig"]
             if any(all(sig.get(k) == v for k, v in s.items()) for s in open_sigs):
                 demoted.append(f"{c['cls']}/{c['case']}/{c['pred']}")
                 continue
